@@ -26,7 +26,7 @@ CONFIG = dict(
     min_nontrivial={"quick": 1500, "thorough": 20000},
     nshards={"quick": 8, "thorough": 16},
     timeout={"quick": 600, "thorough": 3600},
-    required_counters=("deliveries_checked", "checked_then_edited", "nesting_cases_within_budget", "failed_checks_before_later_ones", "report_files_checked", "safety_checks", "loader_reports_compared"),
+    required_counters=("worker_thread_checks", "deliveries_checked", "checked_then_edited", "nesting_cases_within_budget", "failed_checks_before_later_ones", "report_files_checked", "safety_checks", "loader_reports_compared"),
 )
 
 MODULES = {
@@ -240,6 +240,24 @@ def check_deliveries(ctx, f, analysis, loader, UnsafeFileError, label, data, w):
     """Totality does not depend on how the bytes arrive: every stream kind gives a verdict, a JSON report and,
     through the loader, either a return or an UnsafeFileError whose report is the same."""
     agg = ctx.agg
+    if len(data) < 5000:
+        # ... nor on which thread asks: a worker thread (pool of scanners, web handler) gets a verdict too
+        from vp import threads
+
+        def ask():
+            r = analysis.check_safety(f.Pickled.load(data))
+            json.dumps(r.to_dict(), sort_keys=True)
+            try:
+                loader.load(io.BytesIO(data))
+            except UnsafeFileError as e:
+                json.dumps(e.info, sort_keys=True)
+            return r.severity.name
+        kind, got = threads.in_worker(ask)
+        agg.count("worker_thread_checks")
+        if kind != "ok" and not isinstance(got, RecursionError):
+            agg.violation("analysis-raises:worker-thread",
+                          f"the pickle decompiles and is checked fine from the main thread, but from a worker thread the check raises "
+                          f"{type(got).__name__}: {str(got)[:120]}", dict(w, delivery="worker-thread"))
     for kind, opener in _streams(ctx, data):
         try:
             with opener() as st:
